@@ -100,7 +100,7 @@ func c12Producer(r *Run, t *tape.Tape) {
 		}
 		lenClass := "right-length"
 		if t.Bool(1, 5, "c12.hash.wronglen") {
-			n = []int{0, n - 1, n + 1, 2 * n}[t.Choose(4, "c12.hash.wrong")]
+			n = []int{0, n - 1, n + 1, 2 * n, n + 256, n + 512, n + 65536, 256}[t.Choose(8, "c12.hash.wrong")]
 			if n < 0 {
 				n = 0
 			}
@@ -290,7 +290,7 @@ func c12Verifier(r *Run, t *tape.Tape) {
 			broken = "260-wrong-type"
 		case 6:
 			if refcose.HashLen(ha) > 0 {
-				n = []int{0, n - 1, n + 1, 20}[t.Choose(4, "c12.v.len")]
+				n = []int{0, n - 1, n + 1, 20, n + 256, n + 1024, n + 65536}[t.Choose(7, "c12.v.len")]
 				broken = "digest-length"
 			}
 		case 7:
